@@ -217,7 +217,7 @@ def block_soup(rng, maxitems=14):
 
 CHAIN_OPERANDS = ['a', 'b', '@v', '@a', '1', "'s'", 'f(1)', '(x)', 't.c', '*',
                   'null', 'x1', '"q"', 'case when a then 1 end', '?', ':p']
-CHAIN_MIDDLES = [':=', '::', '.', '=', '+', '-', '*', '/', '||', ' as ', ',',
+CHAIN_MIDDLES = [':=', ':=', ':=', '::', '::', '.', '=', '+', '-', '*', '/', '||', ' as ', ',',
                  ' and ', ' or ', '<', '>=', ' like ', ' in ', ' over ', '%']
 CHAIN_PREFIX = ['set', 'select', 'declare', 'x', ',', '1', '(', 'where',
                 'from', 'return', '@', 'begin', ';', 'into']
